@@ -4,11 +4,10 @@ use std::io::{BufRead, Write};
 use std::panic::{catch_unwind, AssertUnwindSafe};
 
 mod util;
-mod c05;
+include!(concat!(env!("OUT_DIR"), "/mods.rs"));
 
 fn dispatch(name: &str, args: &[&str]) -> String {
-    let tables: &[fn(&str, &[&str]) -> Option<String>] = &[c05::dispatch];
-    for t in tables {
+    for t in TABLES {
         if let Some(r) = t(name, args) {
             return r;
         }
